@@ -81,3 +81,5 @@ N("c14-n-stop-suppress", "C14", A, "WorkerThread.stop",
 N("c14-n-stop-remove-first", "C14", A, "WorkerThread.stop",
   "        self.stopping = True\n        self.queue.put_nowait(None)\n        self.workers.discard(self)\n        try:\n            self.idle_workers.remove(self)\n        except ValueError:\n            pass\n",
   "        self.stopping = True\n        try:\n            self.idle_workers.remove(self)\n        except ValueError:\n            pass\n        self.workers.discard(self)\n        self.queue.put_nowait(None)\n")
+M("c14-adapter-total-tokens-not-forwarded", "C14", "_core/_synchronization.py", "CapacityLimiterAdapter.total_tokens@setter",
+  "        self._limiter.total_tokens = value\n", "        self._total_tokens = value\n", ["R14-k"])
